@@ -73,9 +73,11 @@ FREQUENT = ["EVT_FSM_TRANSITION", "EVT_PDU_SENT", "EVT_PDU_RECV", "EVT_DATA_SENT
             "EVT_DIMSE_RECV", "EVT_ACSE_SENT", "EVT_ACSE_RECV"]
 TERMINAL = ("EVT_REQUESTED", "EVT_ACCEPTED", "EVT_ESTABLISHED", "EVT_REJECTED", "EVT_RELEASED", "EVT_ABORTED")
 
-# candidates among lifecycle.SCENARIOS (the race scenarios are left out; determinism is still measured at run time)
+# candidates among lifecycle.SCENARIOS (the race scenarios are left out; determinism is still measured at run time).
+# acceptor-aborts-idle is left out too: whether its A-ABORT PDU reaches the wire is a race inside pynetdicom (the acceptor's
+# association thread closes the socket while the DUL thread is in AA-1) that any handler timing flips - C06's subject.
 LIFECYCLE_CANDIDATES = ["nominal-release", "nominal-find-release", "requestor-abort", "requestor-abort-immediately",
-                        "handler-aborts", "acceptor-releases-idle", "acceptor-aborts-idle", "network-timeout-abort",
+                        "handler-aborts", "acceptor-releases-idle", "network-timeout-abort",
                         "network-timeout-release", "rejected-called-aet", "store-then-release"]
 OWN_SCENARIOS = [
     {"name": "own-store-find-echo-release", "ops": ["store", "find", "echo", "store"], "end": "release"},
@@ -527,6 +529,8 @@ def differential(scn, seed, side, label, evkey, m, kind, exc, base, counters):
 def _mask_specs(tier, seed, scn_name, side):
     r = rng_for(seed, PID, "specs", scn_name, side)
     specs = [{"t": "event", "ev": ev} for ev in NOTIF] + [{"t": "all"}]
+    if tier == "quick" and side == "both":
+        specs = [{"t": "event", "ev": ev} for ev in sorted(r.sample(NOTIF, 8))] + [{"t": "all"}]
     if tier == "quick":
         specs += [{"t": "random", "n": 0, "p": 0.25}]
         for ev in r.sample(FREQUENT, 2):
